@@ -76,6 +76,16 @@ def gen_events(tier, rnd):
                 A, H = Angle(al, 'deg'), Angle(val, unit)
                 add('WormGear', _o(lambda: WormGear('w', 2, J, H, A)), starts=2, helix=rstr(H.to('rad').value), alpha=rstr(A.to('rad').value))
                 add('WormWheel', _o(lambda: WormWheel('w', 30, J, H, A)), teeth=30, helix=rstr(H.to('rad').value), alpha=rstr(A.to('rad').value))
+    # ... and with the PRESSURE angle given in every other angle unit, as a literal and as a converted degree value (the table key
+    # is found by quantity comparison; 14.5 deg re-expressed in rad comes back as 14.500000000000002 deg)
+    for al, lim in limits.items():
+        for unit, val in (('rad', _m.radians(al)), ('rot', al / 360), ('arcmin', al * 60), ('arcsec', al * 3600), ('conv', None)):
+            for cu in (['rad', 'rot', 'arcmin', 'arcsec'] if unit == 'conv' else [unit]):
+                A = Angle(al, 'deg').to(cu) if unit == 'conv' else Angle(val, unit)
+                for h in (lim - 2, lim - 0.01, lim + 0.01, lim + 3, lim + 8, 0.4):
+                    H = Angle(h, 'deg')
+                    add('WormGear', _o(lambda: WormGear('w', 2, J, H, A)), starts=2, helix=rstr(H.to('rad').value), alpha=rstr(A.to('rad').value))
+                    add('WormWheel', _o(lambda: WormWheel('w', 30, J, H, A)), teeth=30, helix=rstr(H.to('rad').value), alpha=rstr(A.to('rad').value))
     for h in (45.0, 89.9, 90.1, 135.0):
         for unit, val in (('rad', _m.radians(h)), ('rot', h / 360), ('arcmin', h * 60), ('arcsec', h * 3600)):
             a = Angle(val, unit)
